@@ -4,6 +4,7 @@ import (
 	"strings"
 
 	"fmt"
+	"github.com/jawher/mow.cli/internal/verifhook"
 )
 
 // TokenType is a type representing the different kinds of tokens
@@ -97,6 +98,7 @@ func Tokenize(usage string) ([]*Token, error) {
 	)
 	eof := len(usage)
 	for pos < eof {
+		verifhook.Point("lexer.loop")
 		switch c := usage[pos]; c {
 		case ' ':
 			pos++
